@@ -239,12 +239,8 @@ def scenario(py, code, mode, with_inc, equal_index=True):
     return dict(mode=mode, status=status, reached=hooks.reached, obligations=list(c.obligations))
 
 
-def run(ctx):
-    py = load()
-    ctx.under_contract("pyins.filters.run_feedforward_filter (prologue, while loop ordinal 0 cut, epilogue)",
-                       "contract stubs: Measurement.compute_matrices (C06), kalman.correct, filters._compute_error_propagation_matrices, _compute_feedforward_result, _interpolate_pva (numeric payloads opaque)")
-    ctx.trust("z3", "numpy documented behaviour of hstack/unique/sort/mask/append/searchsorted; pandas label slice .loc[a:b] inclusive (contract stubs)")
-    ctx.assume("trajectory stamps strictly increasing, N >= 2", "induction over loop iterations (paper argument)", "'finite' beyond division by zero not modelled (A1)")
+def _scheduling(ctx, py):
+    """the cut loop on z3 terms: every mode of the measurements argument, every path"""
     code, info = build(py)
     ctx.notes.append(dict(loop_cut=info))
     t0 = time.time()
@@ -283,9 +279,18 @@ def run(ctx):
         rank, st, detail, cex, mode, count = agg[name]
         native = _replay(py, name, cex) if st == "failed" else None
         ctx.add(Ob("C10." + name, "c", st, "z3", solver_s / max(1, len(agg)), "%s [%d path instances; measurements=%s]" % (detail, count, mode), cex=cex, native=native))
+
+
+def run(ctx):
+    py = load()
+    ctx.under_contract("pyins.filters.run_feedforward_filter (prologue, while loop ordinal 0 cut, epilogue)",
+                       "contract stubs: Measurement.compute_matrices (C06), kalman.correct, filters._compute_error_propagation_matrices, _compute_feedforward_result, _interpolate_pva (numeric payloads opaque)")
+    ctx.trust("z3", "numpy documented behaviour of hstack/unique/sort/mask/append/searchsorted; pandas label slice .loc[a:b] inclusive (contract stubs)")
+    ctx.assume("trajectory stamps strictly increasing, N >= 2", "induction over loop iterations (paper argument)", "'finite' beyond division by zero not modelled (A1)")
+    ctx.guard(_scheduling, ctx, py)
     from props import helpers
-    helpers.interpolate_pva(ctx, py, "C10")
-    helpers.numpy_contracts_standin(ctx, py, "C10")
+    ctx.guard(helpers.interpolate_pva, ctx, py, "C10")
+    ctx.guard(helpers.numpy_contracts_standin, ctx, py, "C10")
     ctx.guard(_standin, ctx, py)
 
     # "exactly once" rests on the measurement models' contract "None iff the time is absent from the table" (C06), re-established here
